@@ -1,15 +1,47 @@
 import NodisVerif.Driver.CodecOps
+import NodisVerif.Driver.ApiOps
 open NodisVerif
 
 structure DState where
-  dummy : Unit := ()
+  inst : List (String × MState) := []
+  cur  : String := ""
 
-def step (st : DState) (line : String) : DState × String :=
+def DState.get (d : DState) : MState := ((d.inst.find? (·.1 == d.cur)).map (·.2)).getD {}
+def DState.put (d : DState) (s : MState) : DState :=
+  { d with inst := (d.cur, s) :: d.inst.filter (·.1 != d.cur) }
+
+/-- split trailing annotations `now=<ms>` / `choice=a,b` off a token list -/
+def annotations (toks : List String) : List String × Int × Option (List Bytes) :=
+  let plain := toks.filter fun t => !(t.startsWith "now=" || t.startsWith "choice=")
+  let now := ((toks.find? (·.startsWith "now=")).bind fun t => (t.drop 4).toString.toInt?).getD 0
+  let choice := (toks.find? (·.startsWith "choice=")).map fun t =>
+    (((t.drop 7).toString.splitOn ",").filter (· ≠ "")).filterMap Wire.parseArg
+  (plain, now, choice)
+
+def step (d : DState) (line : String) : DState × String :=
   let toks := Wire.splitWs line.trimAscii.toString
   match toks with
-  | [] => (st, "")
-  | "ck" :: _ | "dk" :: _ | "ev" :: _ => (st, Driver.codecOp toks)
-  | _ => (st, "bad-op")
+  | [] => (d, "")
+  | "ck" :: _ | "dk" :: _ | "ev" :: _ => (d, Driver.codecOp toks)
+  | "open" :: id :: backend :: _ =>
+    ({ d with cur := id }.put { pebble := backend == "pebble" }, "ok")
+  | ["inst", id] => ({ d with cur := id }, "ok")
+  | _ =>
+    let (plain, now, choice) := annotations toks
+    let s := d.get
+    match plain with
+    | ["close"] => (d.put (Store.close s now), "ok")
+    | ["reopen"] => (d.put (Store.reopen s), "ok")
+    | ["gc"] => (d.put (Store.gc s now), "ok")
+    | ["flush"] => (d.put (Store.flush s now), "ok")
+    | ["sleep", _] => (d, "ok")
+    | ["dump"] => (d, Driver.dumpState s)
+    | "api" :: method :: rest =>
+      (match Driver.callApi { s with signalled := [] } now method (Driver.groups rest) choice with
+       | none => (d, "bad-op")
+       | some (s', out) =>
+         (d.put (Store.syncShared s'), Driver.fmtOut (method == "ZUnion" || method == "ZInter") out))
+    | _ => (d, "bad-op")
 
 partial def loop (h : IO.FS.Stream) (out : IO.FS.Stream) (st : DState) : IO Unit := do
   let line ← h.getLine
